@@ -40,6 +40,37 @@ pub fn long_expressions() -> Vec<String> {
     v
 }
 
+/// inputs that only need a few expressions: invalid UTF-8 inside string tokens, strings whose last line is long
+pub fn special_inputs() -> Vec<Vec<u8>> {
+    let mut v: Vec<Vec<u8>> = Vec::new();
+    // invalid UTF-8 *inside* string tokens (a value, a member name), a truncated sequence, an encoded surrogate
+    v.push(b"\"caf\xff\"".to_vec());
+    v.push(b"{\"k\xfe\": 1}".to_vec());
+    v.push(b"{\"a\": \"\xc3\"}".to_vec());
+    v.push(b"[\"\xed\xa0\x80\"]".to_vec());
+    // a string whose last line is longer than any stdio line buffer (head, newline, long tail)
+    for tail in [1023usize, 1024, 1025, 5000] {
+        v.push(format!("\"head\\n{}\"", "x".repeat(tail)).into_bytes());
+        v.push(format!("{{\"a\": [\"l1\\nl2\\n{}\", \"\\n\"]}}", "y".repeat(tail)).into_bytes());
+    }
+    v
+}
+
+/// invalid JSON texts of 60..260 bytes made of multi-byte characters at every alignment (a diagnosis that quotes
+/// a prefix of the input cuts somewhere in there)
+pub fn long_invalid_inputs() -> Vec<Vec<u8>> {
+    let mut v = Vec::new();
+    for fill in ["\u{e9}", "\u{20ac}", "\u{1F600}"] {
+        for pad in 0..4 {
+            for n in [20usize, 30, 40, 64, 100] {
+                v.push(format!("{}{{\"a\": \"{}", " ".repeat(pad), fill.repeat(n)).into_bytes());
+                v.push(format!("{}[\"{}\", oops]", " ".repeat(pad), fill.repeat(n)).into_bytes());
+            }
+        }
+    }
+    v
+}
+
 /// documents larger than any plausible read block, filled with multi-byte characters at every alignment: a
 /// reader that decodes block by block splits a character at each block boundary
 pub fn large_inputs() -> Vec<Vec<u8>> {
@@ -364,6 +395,23 @@ pub fn run(tier: Tier) -> i32 {
             }
         }
     }
+    for i in special_inputs() {
+        for e in ["@", "a", "a[0]", "length(@)"] {
+            for es in [ExprSrc::Arg, ExprSrc::File] {
+                for is in [InSrc::Stdin, InSrc::File] {
+                    for unquoted in [false, true] {
+                        cases.push(Case { expr: e.to_string(), input: i.clone(), es, is, unquoted, ast: false });
+                    }
+                }
+            }
+        }
+    }
+    // long invalid inputs through stdin and -f
+    for i in long_invalid_inputs() {
+        for is in [InSrc::Stdin, InSrc::File] {
+            cases.push(Case { expr: "@".to_string(), input: i.clone(), es: ExprSrc::Arg, is, unquoted: false, ast: false });
+        }
+    }
     // large inputs through every input source
     for i in large_inputs() {
         for e in ["length(@)", "@"] {
@@ -408,6 +456,29 @@ pub fn run(tier: Tier) -> i32 {
             st.sample(|| case_json(&cases[id]));
         }
     }
+    // expression files that are not valid UTF-8, the bad bytes inside a raw string, inside a quoted identifier and
+    // outside any token: the library cannot even be given such an expression, jp must refuse it
+    {
+        let dir2 = std::path::PathBuf::from(format!("{}/target/cli-tmp-e-{}", crate::engine::verif_root(), std::process::id()));
+        std::fs::create_dir_all(&dir2).unwrap();
+        for (i, bytes) in [b"'caf\xff'".to_vec(), b"\"k\xfe\"".to_vec(), b"a \xff".to_vec(), b"'\xc3'".to_vec(), b"`\"\xed\xa0\x80\"`".to_vec()].iter().enumerate() {
+            let f = dir2.join(format!("e{}", i));
+            std::fs::write(&f, bytes).unwrap();
+            st.states += 1;
+            st.evaluations += 1;
+            st.validated += 1;
+            let o = Command::new(&jp).arg("-e").arg(&f).stdin(Stdio::piped()).stdout(Stdio::piped()).stderr(Stdio::piped()).spawn().and_then(|mut c| {
+                let _ = c.stdin.take().unwrap().write_all(b"{\"a\": 1}");
+                c.wait_with_output()
+            }).unwrap();
+            if o.status.code() == Some(0) || o.status.code() == Some(101) || o.status.code().is_none() || !o.stdout.is_empty() || o.stderr.is_empty() {
+                st.violate(Violation { key: "C18/failure-discipline/expression-file-not-utf8".into(), check: "cli".into(), case: json!({"kind": "expr-file-bytes", "bytes": bytes}), expected: "non-zero exit, empty stdout, diagnosis on stderr".into(), actual: format!("exit {:?} stdout {:?} stderr {:?}", o.status.code(), String::from_utf8_lossy(&o.stdout), String::from_utf8_lossy(&o.stderr)) });
+            } else {
+                st.outcome("failure: expression file is not UTF-8");
+            }
+        }
+        std::fs::remove_dir_all(&dir2).ok();
+    }
     // flag conflicts
     for args in [vec!["-e", "x", "a"], vec![], vec!["--nosuchflag", "a"]] {
         st.states += 1;
@@ -419,7 +490,7 @@ pub fn run(tier: Tier) -> i32 {
         }
     }
     rep.guard("successes and every failure kind occur", ["success: value", "success: unquoted", "success: ast", "failure: bad expression", "failure: bad JSON", "failure: runtime error", "failure: unreadable input file", "failure: unreadable expression file", "failure: input is not UTF-8"].iter().all(|k| st.outcomes.get(*k).cloned().unwrap_or(0) > 0));
-    rep.rule = "the full product expressions x input texts x expression source {argument, -e file, -e missing file} x input source {stdin, -f file, -f missing file, -f directory} x -u x --ast, one jp process each (the unchanged jmespath-cli/src/main.rs built against /repo/jmespath); oracle = the library called in-process on the same bytes: success => exit 0 and stdout = pretty JSON + LF (raw string + LF under -u), --ast => {:#?} of the tree without reading input, any failure => non-zero exit, empty stdout, non-empty stderr, never a panic. non-trivial = a success case whose stdout was compared byte for byte Plus expressions ending / starting in Unicode white space that JMESPath does not skip, strings ending in LF under -u, and 13 documents of 150-300 KB filled with 2-, 3- and 4-byte characters at every alignment through stdin, -f file, -f /dev/stdin and -f FIFO. A jp still running after the horizon (10 s) is killed and reported as C18/hang.".into();
+    rep.rule = "the full product expressions x input texts x expression source {argument, -e file, -e missing file} x input source {stdin, -f file, -f missing file, -f directory} x -u x --ast, one jp process each (the unchanged jmespath-cli/src/main.rs built against /repo/jmespath); oracle = the library called in-process on the same bytes: success => exit 0 and stdout = pretty JSON + LF (raw string + LF under -u), --ast => {:#?} of the tree without reading input, any failure => non-zero exit, empty stdout, non-empty stderr, never a panic. non-trivial = a success case whose stdout was compared byte for byte Plus expressions ending / starting in Unicode white space that JMESPath does not skip, strings ending in LF under -u, and 13 documents of 150-300 KB filled with 2-, 3- and 4-byte characters at every alignment through stdin, -f file, -f /dev/stdin and -f FIFO. A jp still running after the horizon (10 s) is killed and reported as C18/hang. Plus: invalid UTF-8 inside string tokens of the input and of expression files, strings whose last line exceeds 1024 bytes under -u, 120 invalid JSON texts of multi-byte characters at every alignment.".into();
     rep.bounds = json!({"expressions": expressions(tier).len(), "inputs": inputs(tier).len(), "process_runs": cases.len()});
     rep.assumptions = vec!["non-UTF-8 argv and write failures on stdout/stderr are outside the stated quantifier".into()];
     rep.stats = st;
